@@ -43,6 +43,17 @@ def default_transparent(cs):
     return h in TRANSPARENT_TYPES or h.startswith('&')
 
 
+def wrapper_new(cs):
+    """`RefCell::new(x)`, `Rc::new(x)`, `Box::new(x)`, `Cell::new(x)`: the value is merely wrapped."""
+    return cs in ('RefCell::new', 'Rc::new', 'Arc::new', 'Box::new', 'Cell::new', 'Option::Some')
+
+
+import re
+INT_METHOD = re.compile(r'^(i8|i16|i32|i64|i128|isize|u8|u16|u32|u64|u128|usize)::'
+                        r'((wrapping|checked|saturating|overflowing|strict)_\w+|abs|pow|rem_euclid|div_euclid|min|max|'
+                        r'signum|unsigned_abs|abs_diff|clamp)$')
+
+
 class DefUse:
     def __init__(self, fn):
         self.fn = fn
@@ -231,7 +242,14 @@ class Tracer:
         cs = callee_short(t)
         cp = callee(t)
         args = t['args']
-        if cs in self.extra or self.transparent(cs):
+        m = INT_METHOD.match(cs)
+        if m:
+            # integer arithmetic method: an operation over all its arguments
+            out.add('op:' + m.group(2))
+            for a in args:
+                self._operand(fn, a, seen, out)
+            return
+        if cs in self.extra or self.transparent(cs) or wrapper_new(cs):
             out.add('via:' + cs)
             if args:
                 self._operand(fn, args[0], seen, out)
